@@ -49,6 +49,8 @@ from .values import (
     ROW,
     STR,
     STRSEQ,
+    STRLIST,
+    TStrList,
     Frame,
     State,
     TConst,
@@ -190,7 +192,7 @@ class Engine:
             return lv.len > 0
         if isinstance(ty, TTuple):
             return z3.BoolVal(len(v.z) > 0)
-        if ty == STRSEQ:
+        if ty in (STRSEQ, STRLIST):
             return z3.Length(v.z) > 0
         if isinstance(ty, TOpt):
             ov = OptView(st, v.z, ty.inner)
@@ -606,6 +608,8 @@ class Engine:
             # property / method of Fragment or Gap: by contract
             return self.row_member(s, recv, attr, exc, line)
         if isinstance(ty, TRef):
+            if ty.cls == "TextOut" and attr == "write":
+                return [(s, Val(TFunc(), ("textout-write", recv)))]
             con = find_contract(ty.cls, attr)
             if con is not None and con.kind == "property":
                 return self.call_contract(con, {"self": recv}, s, exc, line)
@@ -633,8 +637,10 @@ class Engine:
                     if key in mi.functions:
                         return [(s, Val(TConst(), ("func", f"{modname}.{key}")))]
                 raise OutOfSubset(f"class attribute {key}")
-        if isinstance(ty, (TList, TDict, TSet)) or ty in (STR, STRSEQ):
+        if isinstance(ty, (TList, TDict, TSet)) or ty in (STR, STRSEQ, STRLIST):
             return [(s, Val(TFunc(), ("method", recv, attr)))]
+        if isinstance(ty, TRef) and False:
+            pass
         if isinstance(ty, TOpt):
             # attribute access on a maybe-None value: AttributeError when None
             ov = OptView(s, recv.z, ty.inner)
@@ -811,6 +817,16 @@ class Engine:
 
     def ev_List(self, e, st, exc):
         if e.elts and not (len(e.elts) == 1 and isinstance(e.elts[0], ast.Starred)):
+            if self.hint_type(e, None) == STRLIST:
+                out = []
+                for s, vals in self.ev_seq(e.elts, st, exc):
+                    if any(v.ty != STR for v in vals):
+                        raise OutOfSubset("non-str element in a str list display")
+                    seq = z3.Unit(vals[0].z)
+                    for v in vals[1:]:
+                        seq = z3.Concat(seq, z3.Unit(v.z))
+                    out.append((s, Val(STRLIST, seq)))
+                return out
             raise OutOfSubset("list display with elements")
         out = []
         if not e.elts:
@@ -836,7 +852,7 @@ class Engine:
         return Val(v.ty, new)
 
     def hint_type(self, node, default):
-        """element type of an empty container display, from the contract's local_types"""
+        """type of a container display, from the contract's local_types (keyed by the assigned name)"""
         lt = getattr(self.fn, "local_types", {}) or {}
         tgt = getattr(node, "_pyvc_target", None)
         if tgt and tgt in lt:
@@ -897,6 +913,16 @@ class Engine:
             if kind == "method":
                 _, recv, name = f.z
                 return self.builtin_method(s, recv, name, pos, kw, exc, node)
+            if kind == "textout-write":
+                # file.write(text): the text is appended to the ghost list of written chunks
+                (x,) = pos
+                if x.ty != STR:
+                    raise OutOfSubset("write of non-str")
+                recv = f.z[1]
+                _, m, fty = field_map(s, "TextOut", "g_out")
+                lst = Val(fty, m[recv.z])
+                self.note_list(s, lst)
+                return self.builtin_method(s, lst, "append", [x], {}, exc, node)
             if kind == "closure":
                 return self.call_closure(s, f, pos, kw, exc, line)
             if kind == "lambda":
@@ -1400,6 +1426,39 @@ class Engine:
                         self.note_write(nm, recv.z)
                     return [(s, NONE_VAL)]
                 raise OutOfSubset("extend argument")
+        if ty == STRLIST and name in ("extend", "append"):
+            tgt = node.func.value
+            if not isinstance(tgt, ast.Name):
+                raise OutOfSubset("str-list method on a non-name receiver")
+            (x,) = pos
+            if name == "append":
+                if x.ty != STR:
+                    raise OutOfSubset("append of non-str")
+                add = z3.Unit(x.z)
+            elif isinstance(x.ty, TTuple):
+                if not x.z:
+                    return [(s, NONE_VAL)]
+                if any(v.ty != STR for v in x.z):
+                    raise OutOfSubset("extend with non-str elements")
+                add = z3.Unit(x.z[0].z)
+                for v in x.z[1:]:
+                    add = z3.Concat(add, z3.Unit(v.z))
+            elif x.ty in (STRSEQ, STRLIST):
+                add = x.z
+            else:
+                raise OutOfSubset(f"extend of a str list with {x.ty}")
+            self.assign_name(s, tgt.id, Val(STRLIST, z3.Concat(recv.z, add)))
+            return [(s, NONE_VAL)]
+        if ty == STR and name == "join":
+            (x,) = pos
+            if x.ty in (STRLIST, STRSEQ):
+                return [(s, mk_str(smt.strjoin(recv.z, x.z)))]
+            if isinstance(x.ty, TTuple) and all(v.ty == STR for v in x.z) and x.z:
+                seq = z3.Unit(x.z[0].z)
+                for v in x.z[1:]:
+                    seq = z3.Concat(seq, z3.Unit(v.z))
+                return [(s, mk_str(smt.strjoin(recv.z, seq)))]
+            raise OutOfSubset(f"join of {x.ty}")
         if isinstance(ty, TDict):
             dv = DictView(s, recv.z, ty.key, ty.val)
             nh, has, nv, val = dict_maps(s, ty.key, ty.val)
@@ -1861,9 +1920,14 @@ class Engine:
             if not side:
                 outs.append(Outcome("normal", s1))
                 continue
+            b_ns = NS(s1.clone(), {})
             for oc in self.exec_block(body, s1):
                 if oc.kind in ("normal", "continue"):
                     s2 = oc.st
+                    if spec.iter_post is not None:
+                        # postcondition of one iteration (state at body start -> state at body end)
+                        for label, f in conj(spec.iter_post(NS(s2, {}), b_ns, e_ns)):
+                            self.oblige(s2, f"loop{ordinal}.iteration[{label}]", "iter-post", f, line)
                     advance(s2)
                     v2 = NS(s2, {})
                     for label, f in self.call_inv(spec, v2, e_ns):
